@@ -11,6 +11,7 @@ import (
 	"regexp"
 	"runtime/debug"
 	"strings"
+	"syscall"
 	"time"
 	"unicode/utf8"
 
@@ -31,6 +32,10 @@ type History struct {
 	// provenance, for the evidence only
 	Stream string `json:"stream,omitempty"`
 	What   string `json:"what,omitempty"`
+	// corpus cases: the fault of the history must be reported, through errors of Process
+	// (ExpectErrors) or by Modules.Parse rejecting a text (ExpectRejected)
+	ExpectErrors   bool `json:"expect_errors,omitempty"`
+	ExpectRejected bool `json:"expect_rejected,omitempty"`
 }
 
 func newHistory(stream, what string, names []string, texts []string) History {
@@ -369,7 +374,28 @@ func childMain() {
 		}
 	}
 	debug.SetMaxStack(512 << 20)
-	rd := bufio.NewReaderSize(os.Stdin, 1<<20)
+	// a hard cap on the address space: a runaway allocation (e.g. reading a device file) ends this
+	// child with "out of memory" instead of taking the machine down
+	var lim syscall.Rlimit
+	if syscall.Getrlimit(syscall.RLIMIT_AS, &lim) == nil {
+		const capAS = 4 << 30
+		if lim.Cur > capAS { // RLIM_INFINITY is the largest value
+			lim.Cur = capAS
+			syscall.Setrlimit(syscall.RLIMIT_AS, &lim)
+		}
+	}
+	// the protocol pipe moves to another descriptor and descriptor 0 becomes /dev/null, so that
+	// nothing goyang might read from "/dev/stdin" can steal protocol input or block
+	in := os.Stdin
+	if fd, err := syscall.Dup(0); err == nil {
+		if null, err := os.Open(os.DevNull); err == nil {
+			if syscall.Dup3(int(null.Fd()), 0, 0) == nil {
+				in = os.NewFile(uintptr(fd), "protocol")
+			}
+			null.Close()
+		}
+	}
+	rd := bufio.NewReaderSize(in, 1<<20)
 	wr := bufio.NewWriterSize(os.Stdout, 1<<20)
 	for {
 		line, err := rd.ReadString('\n')
